@@ -1104,7 +1104,7 @@ func malformed() {
 func main() {
 	fl := vh.ParseFlags()
 	out = vh.NewOut("C01", fl, "From XMT Require Import Base.Prelude Model.Codec Model.Packet.", "case", "check",
-		"packets over the grid payload length {0,1,2,254..257,65534..65537,100000[,1 MiB]} x tag count {0,1,2,255,256[,32767,32768]} (quick tier: lengths >= 65534 with 1-3 tag counts each and four chunkings; thorough: the full product) with random id/job/flag word/device, "+
+		"packets over the grid payload length {0,1,2,254..257,65534..65537,100000[,256 KiB]} x tag count {0,1,2,255,256[,32767,32768]} (quick tier: lengths >= 65534 with 1-3 tag counts each and four chunkings; thorough: the full product) with random id/job/flag word/device, "+
 			"each marshalled by the real code (bytes compared with the model) and read back through a chunking io.Reader replaying all-at-once / 1-byte / random / "+
 			"boundary+-1 splits with 0-64 trailing bytes (fields and bytes consumed compared); the same for the nested stream form (Chunk container and data.NewReader); "+
 			"concatenated packets; truncations at every offset, every class byte, forged 2^32/2^63 lengths; flag setters on random and single-bit words. "+
@@ -1126,7 +1126,9 @@ func main() {
 	lens := []int{0, 1, 2, 254, 255, 256, 257, 65534, 65535, 65536, 65537, 100000}
 	tagc := []int{0, 1, 2, 255, 256}
 	if thorough {
-		lens = append(lens, 1<<20)
+		// (1 MiB payloads are not used: vm_compute scans its stack at every minor collection, a list
+		// of 2^20 bytes costs minutes per pass; 256 KiB crosses no further format boundary either)
+		lens = append(lens, 1<<18)
 		tagc = append(tagc, 32767, 32768)
 	}
 	for _, L := range lens {
@@ -1143,8 +1145,8 @@ func main() {
 				}
 				mode = 1
 			}
-			if L >= 1<<20 { // thorough tier only: three tag counts, reduced chunkings
-				if T != 0 && T != 256 && T != 32768 {
+			if L >= 1<<18 { // thorough tier only: two tag counts, reduced chunkings
+				if T != 0 && T != 256 {
 					continue
 				}
 				mode = 1
